@@ -138,6 +138,17 @@ def run(ctx):
                  dict(ops=[U.op_sec("basic", "auth:usr:other")]), dict(ops=[U.op_sec("ca", "ca:ca2")]),
                  dict(ops=[U.op_sec("basic", "auth:usr2:pwd")]), dict(ops=[U.op_sec("basic", "absent")]), dict(ops=[U.op_sec("basic", "auth:usr:pwd")])]
         hs.append(dict(id="seconly-%d" % k, opt=dict(shards=sh, watchwithoutclass=True), steps=steps))
+    # only the host side of an Ingress changes (its server-alias) while its backend has paths with distinct configurations: the path-id
+    # maps of the backend name the hosts and their aliases, they follow
+    for k, sh in enumerate([0, 3, 0, 3]):
+        a = dict(label="wl", rules=[U.R(U.H1, U.P("/", "s1"))])
+        b = dict(label="pub", rules=[U.R(U.H2, U.P("/pub", "s1"))])
+        wl = {"whitelist-source-range": "10.0.0.0/8"}
+        walk = [dict(wl, **{"server-alias": "alias.local"}), dict(wl, **{"server-alias": "other.local"}), dict(wl), dict(wl, **{"server-alias-regex": "^al[a-z]+\\.local$"})]
+        if k >= 2:
+            walk = walk[::-1]
+        steps = [dict(ops=U.base_ops() + [U.op_ing(1, a, dict(wl)), U.op_ing(2, b)])] + [dict(ops=[U.op_ing(1, a, w)]) for w in walk]
+        hs.append(dict(id="alias-%d" % k, opt=dict(shards=sh, watchwithoutclass=True), steps=steps))
     # regression seed of the listed finding (auth-proxy leftovers), so that it is observed on every run
     hs.append(dict(id="seed-auth-leftover", opt=dict(shards=0, watchwithoutclass=True), steps=[
         dict(ops=U.base_ops() + [U.op_ing(1, "t1", {"auth-url": "http://10.0.0.9:8000/auth"})]),
